@@ -71,6 +71,25 @@ func convertSchema(schema *schema_j5pb.Field) (*Schema, error) {
 	case *schema_j5pb.Field_String_:
 		out.SchemaItem.Type = convertStringItem(t.String_)
 
+	case *schema_j5pb.Field_Key:
+		out.SchemaItem.Type = convertKeyItem(t.Key)
+
+	case *schema_j5pb.Field_Bytes:
+		// J5 JSON: padded standard base64
+		out.SchemaItem.Type = &StringItem{Format: Value("byte")}
+
+	case *schema_j5pb.Field_Date:
+		// J5 JSON: YYYY-MM-DD
+		out.SchemaItem.Type = &StringItem{Format: Value("date")}
+
+	case *schema_j5pb.Field_Timestamp:
+		// J5 JSON: RFC3339
+		out.SchemaItem.Type = &StringItem{Format: Value("date-time")}
+
+	case *schema_j5pb.Field_Decimal:
+		// J5 JSON: decimals are quoted strings
+		out.SchemaItem.Type = &StringItem{Format: Value("decimal")}
+
 	case *schema_j5pb.Field_Integer:
 		out.SchemaItem.Type = convertIntegerItem(t.Integer)
 
@@ -159,6 +178,23 @@ func convertStringItem(item *schema_j5pb.StringField) *StringItem {
 		out.MaxLength = Maybe(item.Rules.MaxLength)
 	}
 
+	return out
+}
+
+// convertKeyItem renders a key field as a string, with the format or pattern
+// of the declared key format.
+func convertKeyItem(item *schema_j5pb.KeyField) *StringItem {
+	out := &StringItem{}
+	switch ft := item.GetFormat().GetType().(type) {
+	case *schema_j5pb.KeyFormat_Uuid:
+		out.Format = Value("uuid")
+	case *schema_j5pb.KeyFormat_Id62:
+		out.Format = Value("id62")
+	case *schema_j5pb.KeyFormat_Custom_:
+		if pattern := ft.Custom.GetPattern(); pattern != "" {
+			out.Pattern = Value(pattern)
+		}
+	}
 	return out
 }
 
